@@ -116,8 +116,8 @@ Proof.
 Qed.
 
 (* a child the walk enumerates is what a single lookup of its segment returns, and is well-formed *)
-Lemma children_lookup n s ps v :
-  keys_ok n = true -> In (ps, v) (children n s) -> lookup_seg n ps = Some v.
+Lemma children_lookup q n s ps v :
+  keys_ok n = true -> In (ps, v) (children q n s) -> lookup_seg n ps = Some v.
 Proof.
   intros Hk. unfold children. destruct (interests s) as [attn|].
   - unfold interest_kids. intros H. apply in_flat_map in H. destruct H as (ps' & _ & H).
@@ -164,13 +164,14 @@ Lemma deref_nonlink g f v : is_link v = false -> deref g f v = Ok v.
 Proof. intros H; destruct v; try discriminate; destruct f; reflexivity. Qed.
 
 Section Resolve.
+  Variable q : quirks.
   Variable g : list (bytes * dm).
   Variable root : dm.
   Hypothesis Hg : good_graph g = true.
 
   Lemma walk_resolves f : forall ls P n s,
     get g root P = Ok n -> keys_ok n = true ->
-    Forall (resolves g root) (fst (walk g f ls P n s)).
+    Forall (resolves g root) (fst (walk q g f ls P n s)).
   Proof.
     induction f as [|f IH]; intros ls P n s Hget Hk; [constructor|].
     assert (Hv : resolves g root (visit_event P n s ls)).
@@ -178,13 +179,13 @@ Section Resolve.
       - exists n. split; [exact Hget|]. destruct (match_sel_shape s n m Em) as [->|H]; [left; reflexivity|right; auto].
       - exists n. auto. }
     rewrite walk_S. destruct (is_container n); [|cbn; constructor; [exact Hv|constructor]].
-    pose proof (seqk_Forall_in (resolves g root) (explore_step g (walk g f) ls P n s) (children n s)) as H.
-    destruct (seqk (explore_step g (walk g f) ls P n s) (children n s)) as [e o]. cbn in *.
+    pose proof (seqk_Forall_in (resolves g root) (explore_step q g (walk q g f) ls P n s) (children q n s)) as H.
+    destruct (seqk (explore_step q g (walk q g f) ls P n s) (children q n s)) as [e o]. cbn in *.
     constructor; [exact Hv|]. apply H. clear H. intros [ps v] Hin.
-    pose proof (children_lookup n s ps v Hk Hin) as Hl.
+    pose proof (children_lookup q n s ps v Hk Hin) as Hl.
     pose proof (lookup_keys_ok n ps v Hk Hl) as Hkv.
     apply step_ok_iff in Hl.
-    unfold explore_step; cbn [fst snd]. destruct (explore s n ps) as [[s'|]| |]; cbn; try constructor.
+    unfold explore_step; cbn [fst snd]. destruct (explore q s n ps) as [[s'|]| |]; cbn; try constructor.
     assert (Hstep : forall w, deref g (S (length g)) v = Ok w -> get g root (P ++ [ps]) = Ok w).
     { intros w Hw. rewrite get_app, Hget. cbn [bind get]. unfold step_deref. rewrite Hl. cbn [bind]. rewrite Hw. reflexivity. }
     destruct v; try (apply IH; [apply Hstep; reflexivity|exact Hkv]).
@@ -193,15 +194,15 @@ Section Resolve.
       assert (Hb : get g root (P ++ [ps]) = Ok b).
       { apply Hstep. cbn. rewrite Eb. apply deref_nonlink; exact Hlb. }
       specialize (IH (c :: ls) (P ++ [ps]) b s' Hb Hkb).
-      destruct (walk g f (c :: ls) (P ++ [ps]) b s') as [e' o']. cbn in *.
+      destruct (walk q g f (c :: ls) (P ++ [ps]) b s') as [e' o']. cbn in *.
       constructor; [exact I|exact IH].
     - constructor; [exact I|constructor].
   Qed.
 End Resolve.
 
-Theorem walk_paths_resolve g root f s :
+Theorem walk_paths_resolve q g root f s :
   good_graph g = true -> keys_ok root = true ->
-  Forall (resolves g root) (fst (walk_adv g f root s)).
+  Forall (resolves g root) (fst (walk_adv q g f root s)).
 Proof. intros Hg Hk. apply walk_resolves; auto. Qed.
 
 (* ---- the link-root block: the walk visits the link node, get follows it *)
@@ -212,7 +213,7 @@ Definition lb_root : dm := DMap [([112%N], DLink lb_c2)].
 Definition lb_sel : sel := SAll (SMatch None).
 
 Lemma walk_paths_refuted_link_block :
-  exists e, In e (fst (walk_adv lb_g 5 lb_root lb_sel)) /\ ~ resolves lb_g lb_root e.
+  exists e, In e (fst (walk_adv pinned lb_g 5 lb_root lb_sel)) /\ ~ resolves lb_g lb_root e.
 Proof.
   exists (EVisit [SegS [112%N]] (DLink lb_c1) RMatch [lb_c2]). split.
   - vm_compute. right. right. left. reflexivity.
@@ -269,14 +270,14 @@ Proof. split; reflexivity. Qed.
 
 (* the unconditional statement (any blocks with unique keys) and its refutation by the link-root block *)
 Definition walk_paths_full : Prop :=
-  forall g root f s,
+  forall q g root f s,
     forallb (fun cb => keys_ok (snd cb)) g = true -> keys_ok root = true ->
-    Forall (resolves g root) (fst (walk_adv g f root s)).
+    Forall (resolves g root) (fst (walk_adv q g f root s)).
 
 Lemma walk_paths_full_refuted : ~ walk_paths_full.
 Proof.
   intros H. destruct walk_paths_refuted_link_block as (e & Hin & Hn).
-  specialize (H lb_g lb_root 5%nat lb_sel eq_refl eq_refl). rewrite Forall_forall in H. exact (Hn (H e Hin)).
+  specialize (H pinned lb_g lb_root 5%nat lb_sel eq_refl eq_refl). rewrite Forall_forall in H. exact (Hn (H e Hin)).
 Qed.
 
 Example good_example :
